@@ -815,6 +815,47 @@ def check_lstrip_gate(ctx, prog, roles, per_fn, cfgname):
     return len(sites)
 
 
+R11 = "C10.E11.indentation-is-spaces-and-tabs"
+
+
+def check_indentation_sets(ctx, prog, roles, cfgname):
+    """E11: wherever lexer code singles out the space character as indentation (compares a byte / char with ' ', or uses
+    ' ' as a trim / search pattern), the tab is indentation too - unless it classifies with `is_whitespace` /
+    `is_ascii_whitespace`, which know both.  A start-of-line test that skips spaces only no longer sees a line statement
+    behind a tab (seed C10-11)."""
+    tag = "" if cfgname == "MAX" else "[%s]" % cfgname
+    n = 0
+    for f in roles.fns:
+        consts = set()
+        for bb, i, st in f.all_stmts():
+            rv = st.get("rv") or {}
+            if rv.get("k") == "bin" and rv.get("op") in ("Eq", "Ne"):
+                for k in ("a", "b"):
+                    c = rv[k].get("c") if isinstance(rv.get(k), dict) else None
+                    if c is not None and "int" in c and c.get("ty") in ("u8", "char"):
+                        consts.add(int(c["int"]))
+        for sb in sorted(f.reachable):
+            t = f.term(sb)
+            if t["k"] == "switch" and t.get("ty") in ("u8", "char"):
+                consts |= {int(v) for v, _ in t["arms"] if v.lstrip("-").isdigit()}
+        for c in f.calls():
+            if c.name.startswith(STR) and len(c.args) == 2 and c.name.rsplit("::", 1)[1] in (
+                    "trim_end_matches", "trim_start_matches", "trim_matches", "strip_prefix", "strip_suffix", "starts_with",
+                    "ends_with", "find", "rfind", "split", "contains"):
+                consts |= const_chars(f, c.args[1])
+        if 32 not in consts:
+            continue
+        n += 1
+        knows_ws = any(c.name.endswith(("::is_whitespace", "::is_ascii_whitespace")) for c in f.calls())
+        ctx.ob(R11, "%s%s" % (f.path.replace(LEX, ""), tag), 9 in consts or knows_ws,
+               "this lexer code treats ' ' as indentation but not the tab (characters compared: %s)" % sorted(consts), f.where(0))
+    return n
+
+
+def tag_of(cfgname):
+    return "" if cfgname == "MAX" else "[%s]" % cfgname
+
+
 def run(ctx):
     ctx.explain("C10 (partial): the wiring of the whitespace rules in the lexer.  Every operation of "
                 "minijinja::compiler::lexer that shortens template text (str::trim*, the whitespace skipper, the lstrip "
@@ -841,6 +882,8 @@ def run(ctx):
         nm = check_marker_args(ctx, prog, roles, cfgname)
         n9 = check_crlf_order(ctx, prog, roles, cfgname)
         n10 = check_lstrip_gate(ctx, prog, roles, per_fn, cfgname)
+        n11 = check_indentation_sets(ctx, prog, roles, cfgname)
+        ctx.count("C10.E11 functions that single out the space" + tag_of(cfgname), n11)
         if cfgname == "MAX":
             check_literals(ctx, prog, roles, cfgname)
             # floors: numbers counted on the tree (a rule that finds nothing passes vacuously)
